@@ -39,7 +39,7 @@
 use std::collections::BTreeMap;
 
 use crate::program::{
-    combine2, combine3, map_digest, param_result, try_fails, Ev, Event, Input, Lane, MapSnap, Node, NodeId, Program, Step, N_MAP, N_VAL, PARAM_NAMES, PARAM_ZONE,
+    combine2, combine3, map_digest, param_result, try_fails, Ev, Event, Input, Lane, MapSnap, Node, NodeId, Program, Step, N_MAP, N_VAL, PARAM_NAMES, PARAM_ZONE, SYNC_KEY,
 };
 
 /// The route the agent runs at (`get_agent_uri`).
@@ -137,6 +137,11 @@ pub struct Stats {
     pub cue_keys_deferred: u64,
     pub cue_keys_coalesced: u64,
     pub demand_syncs: u64,
+    pub demand_map_syncs: u64,
+    /// (`cue_key_always_nested == false`) `synced` messages; times the lane was asked for its
+    /// next handler after a completed write.
+    pub demand_map_synced: u64,
+    pub demand_map_event_after_write: u64,
     pub lanes_opened: u64,
     /// Trace length at the first point where a handler chain that had *lost* the handlers of a
     /// change (see `trigger_dropped_by_failed_try`) failed and the agent carried on nevertheless
@@ -204,6 +209,12 @@ struct Machine<'a> {
     dm_pending: bool,
     /// ... and the keys cued meanwhile (one entry per key, in the order first cued).
     dm_queue: Vec<i32>,
+    /// ... a remote has asked to sync and `keys` has not run yet; the keys still owed to syncing
+    /// remotes (one queue per request); whose turn it is (cued keys / synced keys); the next queue.
+    dm_sync_requested: bool,
+    dm_sync_queues: Vec<Vec<i32>>,
+    dm_sync_turn: bool,
+    dm_sync_index: usize,
     /// A change lost its handlers in the handler chain running now.
     dropped_in_chain: bool,
     /// ... and the lane has been reported as having something to write since the last write
@@ -333,17 +344,73 @@ impl<'a> Machine<'a> {
                 }
                 if self.dm_pending {
                     self.stats.cue_keys_deferred += 1;
-                    return Ok(());
                 }
-                let first = self.dm_queue.remove(0);
-                self.depth += 1;
-                self.stats.max_depth = self.stats.max_depth.max(self.depth);
-                self.stats.depth_hist[(self.depth as usize).min(9)] += 1;
-                let r = self.cue_key_one_at_a_time(first);
-                self.depth -= 1;
-                r
+                self.dm_item_event(true)
             }
         }
+    }
+
+    /// Reading `cue_key_always_nested == false`: the lane is asked for its next handler - after a
+    /// `cue_key` or a sync request (`nested`: inside the handler that made it) or after a write
+    /// that left work behind (a handler of its own). Nothing while a value waits to be written;
+    /// else `keys` for a new sync request; else the next queued entry, cued keys and the keys owed
+    /// to syncing remotes taking turns; a sync whose keys are all sent ends with a `synced`
+    /// message, which is written like a value but computed by no handler.
+    fn dm_item_event(&mut self, nested: bool) -> Result<(), Abort> {
+        loop {
+            if self.dm_pending {
+                return Ok(());
+            }
+            if self.dm_sync_requested {
+                self.dm_sync_requested = false;
+                self.dm_handler(nested, |m| m.log(Ev::Keys))?;
+                self.dm_sync_queues.push(vec![SYNC_KEY]);
+                self.dm_dirty = true;
+                continue;
+            }
+            let turn_of_cued = !self.dm_sync_turn;
+            self.dm_sync_turn = !self.dm_sync_turn;
+            if (turn_of_cued && !self.dm_queue.is_empty()) || self.dm_sync_queues.is_empty() {
+                if self.dm_queue.is_empty() {
+                    return Ok(());
+                }
+                let key = self.dm_queue.remove(0);
+                // A key that has just been cued is no longer owed to a syncing remote.
+                for q in &mut self.dm_sync_queues {
+                    if let Some(i) = q.iter().position(|k| *k == key) {
+                        q.remove(i);
+                    }
+                }
+                return self.dm_handler(nested, |m| m.cue_key_one_at_a_time(key));
+            }
+            let i = self.dm_sync_index;
+            if self.dm_sync_queues[i].is_empty() {
+                self.dm_sync_queues.remove(i);
+                if self.dm_sync_index >= self.dm_sync_queues.len() {
+                    self.dm_sync_index = 0;
+                }
+                self.stats.demand_map_synced += 1;
+                self.dm_pending = true;
+                self.dm_dirty = true;
+                return Ok(());
+            }
+            let key = self.dm_sync_queues[i].remove(0);
+            self.dm_sync_index = (i + 1) % self.dm_sync_queues.len();
+            return self.dm_handler(nested, |m| m.cue_key_one_at_a_time(key));
+        }
+    }
+
+    fn dm_handler(&mut self, nested: bool, f: impl FnOnce(&mut Self) -> Result<(), Abort>) -> Result<(), Abort> {
+        if nested {
+            self.depth += 1;
+            self.stats.max_depth = self.stats.max_depth.max(self.depth);
+            self.stats.depth_hist[(self.depth as usize).min(9)] += 1;
+        }
+        let r = f(self);
+        if nested {
+            self.depth -= 1;
+        }
+        r
     }
 
     /// `on_cue_key` under the reading `cue_key_always_nested == false`: the value counts as
@@ -620,6 +687,19 @@ impl<'a> Machine<'a> {
                 self.stats.demand_syncs += 1;
                 self.fire(Trig::Cue)
             }
+            // "`keys`: triggers each time a downlink attempts to sync with the lane", then
+            // `on_cue_key` "once for each defined key".
+            Input::Sync(Lane::DemMap) => {
+                self.stats.demand_map_syncs += 1;
+                if self.policy.cue_key_always_nested {
+                    self.triggered(Event::Keys, Ev::Keys, 0)?;
+                    self.triggered(Event::OnCueKey, Ev::OnCueKey { key: SYNC_KEY }, SYNC_KEY as i64)
+                } else {
+                    self.dm_sync_requested = true;
+                    self.dm_dirty = true;
+                    self.dm_item_event(true)
+                }
+            }
             // No state change: no lifecycle handler.
             Input::Sync(_) => {
                 self.stats.syncs += 1;
@@ -681,11 +761,11 @@ impl<'a> Machine<'a> {
         }
         while next == Next::Continue && self.dm_pending {
             self.dm_pending = false;
-            if self.dm_queue.is_empty() {
+            if self.dm_queue.is_empty() && self.dm_sync_queues.is_empty() && !self.dm_sync_requested {
                 break;
             }
-            let key = self.dm_queue.remove(0);
-            let r = self.cue_key_one_at_a_time(key);
+            self.stats.demand_map_event_after_write += 1;
+            let r = self.dm_item_event(false);
             // (Reported again as having something to write by the handler itself.)
             next = self.classify(r, false);
         }
@@ -734,6 +814,10 @@ pub fn run(prog: &Program, script: &[Step], policy: Policy, budget: usize) -> Re
         dm_pending: false,
         dm_queue: vec![],
         dm_dirty: false,
+        dm_sync_requested: false,
+        dm_sync_queues: vec![],
+        dm_sync_turn: false,
+        dm_sync_index: 0,
         dropped_in_chain: false,
     };
     let done = |mut m: Machine, end: End, overflow: bool| {
